@@ -34,12 +34,14 @@ LEVEL_TEXT = ("Lean 4 theorems over an executable model of prompt_toolkit.docume
 LEVEL_NOTE = ("trusted: Lean kernel, axioms propext/Classical.choice/Quot.sound only; the hand-written model and "
               "regex scanners (validated by the correspondence and the pattern pins, not proved equal to the "
               "Python); CPython str/re/bisect semantics")
-RULE = ("exhaustive: every text over {a . space \\n ( )} up to the tier's length bound x every cursor x every "
-        "query family with counts -2..3 (oversized included), needles of length 0..2, all flag combinations; then "
-        "seeded random texts (up to 60 chars; letters, digits, punctuation, brackets, quotes, tabs, Unicode blanks, "
-        "wide characters) with boundary-biased cursors and needles cut from the text; documents with equal text "
-        "share the line-table cache (share=true) or are re-created per query (share=false); a case is non-trivial "
-        "when the text is non-empty")
+RULE = ("exhaustive: every text over {a . space \\n ( )} (and over {B _ tab [ ] wide-char}) up to the tier's "
+        "length bound x every cursor x every query family with counts -2..3 (oversized included), needles of "
+        "length 0..2, all flag combinations, bracket limits -1..len+1; then seeded random texts (up to 60 chars; "
+        "letters, digits, punctuation, brackets, quotes, tabs, Unicode blanks, wide characters) with "
+        "boundary-biased cursors and needles cut from the text; documents with equal text share the line-table "
+        "cache (share=true) or are re-created per query (share=false); cache-level cases interleave line/index "
+        "queries on 1-3 texts through fresh Document objects with garbage collection of entries; a case is "
+        "non-trivial when the text is non-empty (cache cases: more than one op)")
 EXHAUSTIVE = True
 EXHAUSTIVE_SCOPE = {"quick": "alphabet {a . space \\n ( )} len<=4 and {B _ tab [ ] wide} len<=3, all cursors, all query families",
                     "thorough": "alphabet {a . space \\n ( )} len<=5, {B _ tab [ ] wide} len<=5, {a space \\n (} len=6, "
